@@ -23,6 +23,7 @@ func init() {
 			"H3 in every jobmanagers/*.template* the __MRO_CMD__ placeholder stands in command position, outside quotes and outside # directives. " +
 			"H2 also: text derived from a substitution result (through Split/Join/Trim, elements, local cells) is never searched with a non-constant or placeholder needle. " +
 			"H1 also: the escape set equals the POSIX set (an extra escaped byte keeps its backslash inside double quotes). " +
+			"H4 the jobscript file and the submit command's stdin receive the jobScript result itself. " +
 			"NOT decided: invalid UTF-8 bytes (written as \\ooo, a documented extension), JOB_NAME/RESOURCES, each cluster's directive parser.",
 		Assumptions: append([]string{"POSIX XCU 2.2.3: inside double quotes exactly $, `, \" and \\ (and newline after \\) keep a special meaning"}, commonAssumptions...),
 	}
@@ -37,6 +38,7 @@ func runC18(c *an.Ctx) {
 	if quote == nil || ssq == nil || formatArgs == nil || jobScript == nil {
 		return
 	}
+	ruleH4(c)
 	// ---------------- H1 ----------------
 	escaped := map[rune]bool{}
 	type arm struct {
